@@ -16,10 +16,16 @@ thread, of any length:
 * `C12_at_most_once`           no code object's release callback runs twice;
 * `C12_release_after_delivery` a release callback only runs for a code that was delivered to the decode callback;
 * `C12_exactly_once`           after a silence of at least the padded timeout (1.2 × repeat timeout) every delivered
-                               code has been released exactly once — whatever happened before, superseded keys included.
+                               code has been released exactly once — whatever happened before, superseded keys included;
+* `C12_held`                   after ANY history, a full frame of key K delivers a code object h, and for every
+                               continuation in which all full frames are frames of K and no more than the padded
+                               timeout passes between two frames (full or ditto; polls of the timer thread anywhere):
+                               h is never released, and every full or ditto frame is reported to the decode callback
+                               as exactly one `decoded h K`.
 The invariant behind them is `Timer.Inv` (IRModel/Lemmas/TimerLemmas.lean): a released object is unreachable (neither
 the decoder's nor the dispatcher's held code, and its timer stopped or out of the timer queue); a delivered, not yet
-released object is in the timer queue with a padded timer armed in the past.
+released object is in the timer queue with a padded timer armed in the past; the dispatcher's held code is the
+decoder's held code; the only armed timer in the timer queue is the held code's.
 -/
 namespace IRModel.Props.C12
 open IRModel.Timer
@@ -67,6 +73,40 @@ theorem C12_exactly_once (d : Int) (w : List Ev) (hok : ∀ e ∈ w, e.ok) (δ :
   obtain ⟨hig, hall⟩ := silence_releases _ hi δ hδ (by rw [hdur]; exact hlong)
   obtain ⟨o, ho, hu, _⟩ := hig.delivu i k h
   exact hall i o ho hu
+
+/-- **C12, no release while the key is held, every frame reported.**  `w0` is any history, `frame K t` the press,
+    `w` any continuation that keeps the key held (`HeldWord`: frames of `K`, dittos, clock movements and polls, never
+    1.2 × timeout without a frame). -/
+theorem C12_held (d : Int) (hd : 0 < d) (w0 : List Ev) (hok : ∀ e ∈ w0, e.ok) (K t : Nat) (w : List Ev)
+    (hw : HeldWord d K 0 w) :
+    ∃ h, (∃ pre, (run { duration := d } (w0 ++ [.frame K t])).outs = pre ++ [.decoded h K]) ∧
+      relCount (run (run { duration := d } (w0 ++ [.frame K t])) w).outs h = 0 ∧
+      ∀ w1 e w2, w = w1 ++ e :: w2 → (e = .rep ∨ ∃ k t', e = .frame k t') →
+        (run (run { duration := d } (w0 ++ [.frame K t])) (w1 ++ [e])).outs =
+          (run (run { duration := d } (w0 ++ [.frame K t])) w1).outs ++ [.decoded h K] := by
+  have hi := reachable_inv d w0 hok
+  have hdur : (run { duration := d } w0).duration = d := run_duration w0 _ (inv_init d) hok
+  have hs1 : run { duration := d } (w0 ++ [.frame K t]) = step (run { duration := d } w0) (.frame K t) := by
+    rw [run_append]; rfl
+  obtain ⟨h, hh, hpre⟩ := enter_held _ hi (by rw [hdur]; exact hd) K t
+  rw [hs1]
+  have hdur1 : (step (run { duration := d } w0) (.frame K t)).duration = d := by
+    rw [step_duration _ hi, hdur]
+  refine ⟨h, hpre, ?_, ?_⟩
+  · obtain ⟨acc', hh', _⟩ := held_run w _ h K 0 [] hh (by rw [List.append_nil, hdur1]; exact hw)
+    exact hh'.cnt
+  · intro w1 e w2 hsplit he
+    obtain ⟨acc', hh', hw'⟩ := held_run w1 _ h K 0 (e :: w2) hh (by rw [← hsplit, hdur1]; exact hw)
+    obtain ⟨_, _, _, _, hout⟩ := held_step _ h K acc' hh' e w2 hw'
+    rw [run_append]
+    show (step _ e).outs = _
+    rcases he with rfl | ⟨k, t', rfl⟩
+    · exact hout
+    · exact hout
+
+/-- non-vacuity of `C12_held`: NEC-like schedule — press, three dittos 108 ms apart with polls in between -/
+example : HeldWord 108000 1 0 [.advance 108000, .rep, .tick 60000, .poll, .advance 48000, .rep, .advance 108000, .frame 1 0] := by
+  simp [HeldWord]
 
 /-- a concrete schedule: press, ditto, short silence, long silence — one decode per frame, one release -/
 example :
